@@ -39,6 +39,13 @@ def gen_cfgs(ctx, n):
     c = kfacsim.Config(rng, world=2, k=2, colocate=False, method='eigen', prediv=False, cap_mb=25.0, accum=1, hook=False)
     c.ops = ['f1', 's', 'f1', 's', 'l11', 'f1', 's']
     cfgs.append(c)
+    # value independence: one rank's batch overflows in one pass (AMP-style inf/nan on a strict subset of the ranks)
+    for _ in range(max(6, n // 8)):
+        cfg = kfacsim.Config(rng, world=rng.choice([2, 3, 4]), method='inverse', prediv=False)
+        iters = rng.randrange(2, 5)
+        cfg.ops = (['f1'] * cfg.accum + ['s']) * iters
+        cfg.spike = (rng.randrange(cfg.world), rng.randrange(iters * cfg.accum))
+        cfgs.append(cfg)
     while len(cfgs) < n:
         cfg = kfacsim.Config(rng)
         whole = rng.random() < 0.8
